@@ -84,6 +84,34 @@ func toAnnotations(v interface{}) Annotations {
 	return Annotations(v.([]*Annotation))
 }
 
+// unquoteLiteral returns the value of a single- or double-quoted literal. An
+// escaped quote of either kind stands for that quote whichever kind delimits
+// the literal, as in Apache Thrift; every other escape is strconv.Unquote's.
+func unquoteLiteral(text []byte) (string, error) {
+	if len(text) < 2 {
+		return strconv.Unquote(string(text))
+	}
+	body := text[1 : len(text)-1]
+	buf := make([]byte, 0, len(body)+2)
+	buf = append(buf, '"')
+	for i := 0; i < len(body); i++ {
+		switch {
+		case body[i] == '\\' && i+1 < len(body) && body[i+1] == '\'':
+			buf = append(buf, '\'')
+			i++
+		case body[i] == '\\' && i+1 < len(body):
+			buf = append(buf, body[i], body[i+1])
+			i++
+		case body[i] == '"':
+			buf = append(buf, '\\', '"')
+		default:
+			buf = append(buf, body[i])
+		}
+	}
+	buf = append(buf, '"')
+	return strconv.Unquote(string(buf))
+}
+
 var g = &grammar{
 	rules: []*rule{
 		{
@@ -3771,12 +3799,7 @@ func (p *parser) callonOperation1() (interface{}, error) {
 }
 
 func (c *current) onLiteral1() (interface{}, error) {
-	if len(c.text) != 0 && c.text[0] == '\'' {
-		intermediate := strings.Replace(string(c.text[1:len(c.text)-1]), `\'`, `'`, -1)
-		return strconv.Unquote(`"` + strings.Replace(intermediate, `"`, `\"`, -1) + `"`)
-	}
-
-	return strconv.Unquote(string(c.text))
+	return unquoteLiteral(c.text)
 }
 
 func (p *parser) callonLiteral1() (interface{}, error) {
